@@ -621,6 +621,29 @@ pub mod counting {
             self.0.hash(h)
         }
     }
+
+    /// byte-string item whose `==` counts calls
+    #[derive(Clone, Debug, Eq, PartialOrd, Ord)]
+    pub struct CntS(pub Vec<u8>);
+
+    impl PartialEq for CntS {
+        fn eq(&self, other: &CntS) -> bool {
+            let t = TOTAL.with(|c| {
+                let v = c.get() + 1;
+                c.set(v);
+                v
+            });
+            if t > LIMIT.with(|c| c.get()) {
+                panic!("{}: comparison budget exceeded ({} comparisons)", crate::core::LIB_FAULT_PREFIX, t);
+            }
+            self.0 == other.0
+        }
+    }
+    impl Hash for CntS {
+        fn hash<H: Hasher>(&self, h: &mut H) {
+            self.0.hash(h)
+        }
+    }
 }
 
 // ------------------------------------------------------------------------------------------
@@ -664,6 +687,51 @@ pub fn ops_to_events(ops: &[DiffOp]) -> Vec<Ev> {
             DiffOp::Replace { old_index, old_len, new_index, new_len } => {
                 Ev::Replace(old_index, old_len, new_index, new_len)
             }
+        })
+        .collect()
+}
+
+// ------------------------------------------------------------------------------------------
+// item types with lawful but unusual Hash / comparison behaviour
+
+pub mod items {
+    use std::hash::{Hash, Hasher};
+
+    /// equal/ordered by value, but the hash only sees the two low bits (lawful: equal => same hash)
+    #[derive(Clone, Copy, Debug, PartialEq, Eq, PartialOrd, Ord)]
+    pub struct Coarse(pub u32);
+    impl Hash for Coarse {
+        fn hash<H: Hasher>(&self, h: &mut H) {
+            (self.0 & 3).hash(h)
+        }
+    }
+
+    /// a new-side item type different from the old-side type (u64): compares with u64 by value,
+    /// hashes differently from the equal u64
+    #[derive(Clone, Copy, Debug, PartialEq, Eq, PartialOrd, Ord)]
+    pub struct Id32(pub u32);
+    impl Hash for Id32 {
+        fn hash<H: Hasher>(&self, h: &mut H) {
+            format!("id-{}", self.0).hash(h)
+        }
+    }
+    impl PartialEq<u64> for Id32 {
+        fn eq(&self, o: &u64) -> bool {
+            self.0 as u64 == *o
+        }
+    }
+}
+
+/// deterministic pseudo-random sequence for the fixed "large" cases (a constant of the harness,
+/// not a source of randomness of a run)
+pub fn lcg_seq(seed: u64, n: usize, k: u32) -> Vec<u32> {
+    let mut x = seed.wrapping_mul(0x9E37_79B9_7F4A_7C15) | 1;
+    (0..n)
+        .map(|_| {
+            x ^= x >> 12;
+            x ^= x << 25;
+            x ^= x >> 27;
+            ((x.wrapping_mul(0x2545_F491_4F6C_DD1D) >> 33) as u32) % k
         })
         .collect()
 }
